@@ -26,6 +26,11 @@ Module Kw.
   Definition MAXLEN := s2b "MAXLEN".
   Definition e_range : resp := err "ERR index out of range".
   Definition num (z : Z) : bytes := Z_to_bytes z.
+  Lemma kw_lpos :
+    is_kw RANK "RANK" = true /\
+    is_kw COUNT "RANK" = false /\ is_kw COUNT "COUNT" = true /\
+    is_kw MAXLEN "RANK" = false /\ is_kw MAXLEN "COUNT" = false /\ is_kw MAXLEN "MAXLEN" = true.
+  Proof. repeat split; reflexivity. Qed.
   Lemma kw_before : is_kw BEFORE "BEFORE" = true.
   Proof. reflexivity. Qed.
   Lemma kw_after : is_kw AFTER "BEFORE" = false /\ is_kw AFTER "AFTER" = true.
@@ -1458,3 +1463,179 @@ Example never_empty_ex :
      [(cmd_push false false, [[1%N]; [10%N]; [20%N]]); (cmd_pop true, [[1%N]; Kw.num 2])] in
   d_map d = [] /\ get_list 5 d [1%N] = Some None.
 Proof. vm_compute. split; reflexivity. Qed.
+
+(* ====================================================================== *)
+(* 9. Remaining commands at command level: LLEN, LMPOP, LPOS               *)
+(* ====================================================================== *)
+
+Theorem cmd_llen_spec now d k :
+  cmd_llen now d [k] =
+  (d, match get_list now d k with
+      | Some (Some (l, _)) => RInt (Zlen l)
+      | Some None => RInt 0
+      | None => wrongtype end).
+Proof. unfold cmd_llen. destruct (get_list now d k) as [[[l e]|]|]; reflexivity. Qed.
+
+(* the clamp of a count to the length is invisible *)
+Lemma pop_clamp (l : list bytes) cz :
+  0 <= cz ->
+  let n := Z.to_nat (Z.min cz (Zlen l)) in
+  let m := Z.to_nat cz in
+  firstn n l = firstn m l /\ skipn n l = skipn m l /\
+  firstn (length l - n) l = firstn (length l - m) l /\
+  firstn n (rev l) = firstn m (rev l).
+Proof.
+  intros Hc n m. destruct (Z.le_gt_cases cz (Zlen l)) as [Hle|Hgt].
+  - replace n with m by (subst n m; lia). repeat split.
+  - assert (Hn : n = length l) by (subst n; unfold Zlen in *; lia).
+    assert (Hm : (length l <= m)%nat) by (subst m; unfold Zlen in *; lia).
+    rewrite Hn. repeat split.
+    + rewrite !firstn_all2 by lia. reflexivity.
+    + rewrite !skipn_all2 by lia. reflexivity.
+    + replace (length l - m)%nat with (length l - length l)%nat by lia. reflexivity.
+    + rewrite !firstn_all2 by (rewrite rev_length; lia). reflexivity.
+Qed.
+
+(* LMPOP: the first key that exists is popped [count] times; missing keys are skipped *)
+Theorem lmpop_keys_spec now d pre k post (lft : bool) count l exp :
+  Forall (fun k' => get_list now d k' = Some None) pre ->
+  get_list now d k = Some (Some (l, exp)) -> 0 <= count ->
+  let m := Z.to_nat count in
+  let out := if lft then firstn m l else firstn m (rev l) in
+  let l' := if lft then skipn m l else firstn (length l - m) l in
+  let r := lmpop_keys now d (pre ++ k :: post) lft count in
+  r = (put_list d k l' exp, RArr [RBulk k; RArr (bulks out)]) /\
+  l = (if lft then out ++ l' else l' ++ rev out) /\
+  get_list now (fst r) k = Some (stored l' exp) /\
+  (forall k', k' <> k -> lookup now (fst r) k' = lookup now d k').
+Proof.
+  intros Hpre Hg Hc m out l' r.
+  assert (Er : r = (put_list d k l' exp, RArr [RBulk k; RArr (bulks out)])).
+  { subst r. induction Hpre as [|k0 pre H0 Hpre IH].
+    - cbn [app lmpop_keys]. rewrite Hg. cbv zeta.
+      destruct (pop_clamp l count Hc) as (P1 & P2 & P3 & P4).
+      subst out l' m. destruct lft.
+      + rewrite P1, P2. reflexivity.
+      + rewrite P3, P4. reflexivity.
+    - cbn [app lmpop_keys]. rewrite H0. exact IH. }
+  split; [exact Er|]. rewrite Er. cbn [fst]. split; [|split].
+  - subst out l'. destruct lft.
+    + symmetry. apply firstn_skipn.
+    + rewrite firstn_rev, rev_involutive. symmetry. apply firstn_skipn.
+  - apply get_list_put_list. eapply get_list_alive; eauto.
+  - intros k' Hk. apply lookup_put_list_other; exact Hk.
+Qed.
+Print Assumptions lmpop_keys_spec.
+
+Theorem lmpop_keys_none now d keys lft count :
+  Forall (fun k' => get_list now d k' = Some None) keys ->
+  lmpop_keys now d keys lft count = (d, RNil).
+Proof.
+  induction 1 as [|k0 r H0 Hr IH]; cbn [lmpop_keys]; [reflexivity|]. rewrite H0. exact IH.
+Qed.
+
+Example cmd_lmpop_ex :
+  let d := fst (cmd_push false false 0 empty_db [[2%N]; [10%N]; [20%N]; [30%N]]) in
+  cmd_lmpop 5 d [Kw.num 2; [1%N]; [2%N]; Kw.RIGHT; Kw.COUNT; Kw.num 2]
+  = (put_list d [2%N] [[10%N]] None, RArr [RBulk [2%N]; RArr [RBulk [30%N]; RBulk [20%N]]]) /\
+  cmd_lmpop 5 d [Kw.num 2; [1%N]; [3%N]; Kw.LEFT] = (d, RNil).
+Proof. vm_compute. split; reflexivity. Qed.
+
+(* ---- LPOS at command level ---- *)
+Lemma positions_from_length x l p step : (length (positions_from x l p step) <= length l)%nat.
+Proof.
+  revert p; induction l as [|y r IH]; intro p; cbn [positions_from]; [cbn [length]; lia|].
+  destruct (bytes_eqb y x); cbn [length]; specialize (IH (p + step)); lia.
+Qed.
+
+Lemma firstn_clamp {A} z n (l : list A) : 0 <= z -> (length l <= n)%nat -> firstn (clamp z n) l = firstn (Z.to_nat z) l.
+Proof.
+  intros Hz Hl. unfold clamp. destruct (Z.le_gt_cases z (Z.of_nat n)).
+  - f_equal. lia.
+  - rewrite !firstn_all2 by lia. reflexivity.
+Qed.
+
+Lemma skipn_clamp {A} z n (l : list A) : 0 <= z -> (length l <= n)%nat -> skipn (clamp z n) l = skipn (Z.to_nat z) l.
+Proof.
+  intros Hz Hl. unfold clamp. destruct (Z.le_gt_cases z (Z.of_nat n)).
+  - f_equal. lia.
+  - rewrite !skipn_all2 by lia. reflexivity.
+Qed.
+
+(* LPOS k x RANK r COUNT c MAXLEN m with r > 0: no clamps in the spec;
+   COUNT 0 = all matches, MAXLEN 0 = whole list *)
+Theorem cmd_lpos_forward_spec now d k x r c m rz cz mz l exp :
+  parse_i64 r = Some rz -> parse_i64 c = Some cz -> parse_i64 m = Some mz ->
+  0 < rz -> 0 <= cz -> 0 <= mz ->
+  get_list now d k = Some (Some (l, exp)) ->
+  let scanned := if mz =? 0 then l else firstn (Z.to_nat mz) l in
+  let matches := skipn (Z.to_nat (rz - 1)) (positions x scanned) in
+  let res := if cz =? 0 then matches else firstn (Z.to_nat cz) matches in
+  cmd_lpos now d [k; x; Kw.RANK; r; Kw.COUNT; c; Kw.MAXLEN; m] = (d, RArr (map RInt res)).
+Proof.
+  intros Hr Hc Hm Hrz Hcz Hmz Hg scanned matches res.
+  destruct Kw.kw_lpos as (K1 & K2 & K3 & K4 & K5 & K6).
+  unfold cmd_lpos. cbn [length scan_lpos lp_rank lp_count lp_maxlen].
+  rewrite Hr, K1. cbn [lp_rank lp_count lp_maxlen]. rewrite Hc, K2, K3. cbn [lp_rank lp_count lp_maxlen].
+  rewrite Hm, K4, K5, K6. cbn [lp_rank lp_count lp_maxlen]. cbv zeta.
+  destruct (rz =? 0) eqn:E1; [bool2prop; lia|].
+  destruct (rz =? min_i64) eqn:E2; [bool2prop; unfold min_i64 in *; lia|].
+  destruct (cz <? 0) eqn:E3; [bool2prop; lia|].
+  destruct (mz <? 0) eqn:E4; [bool2prop; lia|].
+  rewrite Hg. destruct (0 <? rz) eqn:E5; [|bool2prop; lia].
+  rewrite lpos_scan_spec. f_equal. f_equal. f_equal.
+  replace (Z.abs rz - 1) with (rz - 1) by lia.
+  assert (Escan : firstn (if mz =? 0 then length l else clamp mz (length l)) l = scanned).
+  { subst scanned. destruct (mz =? 0); [apply firstn_all|]. apply firstn_clamp; [exact Hmz|lia]. }
+  rewrite Escan. fold (positions x scanned).
+  assert (Hlen : (length (positions x scanned) <= length l)%nat).
+  { unfold positions. pose proof (positions_from_length x scanned 0 1) as H1.
+    assert (length scanned <= length l)%nat; [|lia].
+    subst scanned. destruct (mz =? 0); [lia|]. rewrite firstn_length. lia. }
+  rewrite skipn_clamp by (try lia; exact Hlen). fold matches.
+  assert (Hlen2 : (length matches <= length l)%nat) by (subst matches; rewrite skipn_length; lia).
+  subst res. destruct (cz =? 0).
+  - apply firstn_all2. exact Hlen2.
+  - apply firstn_clamp; [exact Hcz | exact Hlen2].
+Qed.
+Print Assumptions cmd_lpos_forward_spec.
+
+(* LPOS k x : position of the first occurrence, nil when there is none *)
+Theorem cmd_lpos_default_spec now d k x l exp :
+  get_list now d k = Some (Some (l, exp)) ->
+  cmd_lpos now d [k; x] = (d, match positions x l with q :: _ => RInt q | [] => RNil end).
+Proof.
+  intro Hg. unfold cmd_lpos. cbn [length scan_lpos lp_rank lp_count lp_maxlen]. cbv zeta.
+  change (1 =? 0) with false. change (1 =? min_i64) with false. change (1 <? 0) with false.
+  change (0 <? 0) with false. change (0 =? 0) with true. change (0 <? 1) with true.
+  cbn match. rewrite Hg. rewrite lpos_scan_spec. rewrite firstn_all.
+  change (clamp (Z.abs 1 - 1) (length l)) with (Z.to_nat (Z.min 0 (Z.of_nat (length l)))).
+  replace (Z.to_nat (Z.min 0 (Z.of_nat (length l)))) with O by lia. cbn [skipn].
+  fold (positions x l). destruct (positions x l) as [|q t] eqn:Ep.
+  - rewrite firstn_nil. reflexivity.
+  - destruct l as [|y r]; [discriminate|].
+    replace (clamp 1 (length (y :: r))) with 1%nat by (unfold clamp; cbn [length]; lia).
+    reflexivity.
+Qed.
+Print Assumptions cmd_lpos_default_spec.
+
+Example cmd_lpos_ex :
+  let d := fst (cmd_push false false 0 empty_db [[1%N]; [1%N]; [2%N]; [1%N]; [3%N]; [1%N]; [1%N]]) in
+  snd (cmd_lpos 5 d [[1%N]; [1%N]; Kw.RANK; Kw.num 2; Kw.COUNT; Kw.num 0; Kw.MAXLEN; Kw.num 5]) = RArr [RInt 2; RInt 4] /\
+  snd (cmd_lpos 5 d [[1%N]; [3%N]]) = RInt 3 /\ snd (cmd_lpos 5 d [[1%N]; [9%N]]) = RNil /\
+  snd (cmd_lpos 5 d [[1%N]; [1%N]; Kw.RANK; Kw.num (-1); Kw.COUNT; Kw.num 2]) = RArr [RInt 5; RInt 4].
+Proof. vm_compute. repeat split. Qed.
+
+(* ---- audit: everything above is axiom-free ---- *)
+Print Assumptions cmd_lrange_spec.
+Print Assumptions lrange_list_facts.
+Print Assumptions ltrim_list_facts.
+Print Assumptions ltrim_list_start_beyond.
+Print Assumptions cmd_push_missing.
+Print Assumptions split_occ_spec.
+Print Assumptions lrem_head_spec.
+Print Assumptions cmd_llen_spec.
+Print Assumptions lmpop_keys_none.
+Print Assumptions positions_from_In.
+Print Assumptions positions_complete.
+Print Assumptions positions_from_sorted_up.
